@@ -29,8 +29,12 @@ Coll2Stores == { [i \in {1, 2} |-> Absent], [i \in {1, 2} |-> IF i = 1 THEN 1 EL
 \* fewer programs when subscribers multiply the interleavings
 SubValPrograms == { Set(1, 1), Set(1, 2), Inc(1, 1), Cas(1, 0, 3) }
 SubCollPrograms == { Set(1, 1), Add(1, 2), Upsert(1, 3), IncUp(1, 1), Del(1) }
-Kinds == { [uo |-> FALSE], [uo |-> TRUE] }
-KindsSeed == { [uo |-> FALSE] }
+\* the smallest setting in which a change can be both in a subscriber's snapshot and delivered to it
+AttackLossyPrograms == { IncUp(1, 1), Add(1, 2), Del(1) }
+AbsentStore == { [i \in {1} |-> Absent] }
+KindLossySeed == { [uo |-> FALSE, lossy |-> TRUE] }
+Kinds == { [uo |-> FALSE, lossy |-> FALSE], [uo |-> TRUE, lossy |-> FALSE] }
+KindsLossy == { [uo |-> FALSE, lossy |-> TRUE], [uo |-> TRUE, lossy |-> TRUE], [uo |-> FALSE, lossy |-> FALSE] }
 
 W1 == {1}  W2 == {1, 2}  W3 == {1, 2, 3}
 S0 == {}   S1 == {1}     S2 == {1, 2}
